@@ -3,6 +3,7 @@
   Theorems about the reference interpreter (Model/Stmt.lean), for every program, context, state and fuel.
 -/
 import JinjaV.Model.Stmt
+import JinjaV.Lemmas.RenameStmt
 
 namespace JinjaV.C03
 open JinjaV.Expr JinjaV.Stmt
@@ -325,6 +326,33 @@ theorem if_shares_scope (rn : Runner) (ctxVars : List (String × Val)) (fuelA : 
   constructor
   · simp [step, hp]
   · exact pickBranch_frames ctxVars els branches st st1 body hp
+
+
+/-! ### consistent renaming -/
+
+/-- **render_alpha**: renaming every identifier of a program (variables, loop targets, macro names and parameters, namespace
+    variables) and of the render context by the same injective map changes neither the output, nor the error, nor whether a
+    read-before-later-assignment occurred — for every program, context and fuel.  (Attribute names, filter names and
+    namespace attribute names are not identifiers of this kind and stay.) -/
+theorem render_alpha (ρ : String → String) (hρ : Function.Injective ρ) (fuel : Nat) (ctxVars : List (String × Val))
+    (body : List Stmt) :
+    render fuel (renVars ρ ctxVars) (renStmts ρ body) = render fuel ctxVars body := by
+  unfold render
+  have hinit : initSt (renStmts ρ body) = renSt ρ (initSt body) := by
+    simp [initSt, renSt, renFrame, renVars, assignedIn_ren]
+  rw [hinit, run_sim ρ hρ ctxVars fuel (initSt body) body]
+  cases run ctxVars fuel (initSt body) body with
+  | error e => rfl
+  | ok r => obtain ⟨st, out, sig⟩ := r; rfl
+
+/-- expression level: value, error and hook events of an expression are invariant under consistent renaming -/
+theorem eval_alpha (ρ : String → String) (hρ : Function.Injective ρ) (c : CCfg) (ae : Bool) (ctx : Ctx) (e : Expr) :
+    eval c ae (renCtx ρ ctx) (renExpr ρ e) = eval c ae ctx e := eval_rename ρ hρ c ae ctx e
+
+/-- the renaming `a ↦ b, b ↦ a` on a two-variable program -/
+example : renStmts (fun n => if n == "a" then "b" else if n == "b" then "a" else n)
+    [.set "a" (.name "b"), .out (.name "a")] = [.set "b" (.name "a"), .out (.name "b")] := by
+  simp [renStmts, renStmt, renExpr]
 
 /-! ### generated identifiers -/
 
